@@ -2,7 +2,7 @@
     Property theorems only, about the per-window methods REGENERATED from the source (Gen/GenScalars.v;
     translation validated by correspondence K5).  [eql] = elementwise equality of rationals. *)
 From Coq Require Import QArith Qabs List Bool String.
-From IV Require Import QL Dist Ecdf QListFacts GenUtils GenScalars RatLS C16_compose C03_proofs C02_proofs C04_proofs C01_proofs C09_proofs RatLS_proofs Affine Affine_debiasers Driver Driver_rel ApplyLocation_units ApplyLocation_param IsimipStep5 IsimipStep5_proofs.
+From IV Require Import QL Dist Ecdf QListFacts GenUtils GenScalars RatLS C16_compose C03_proofs C02_proofs C04_proofs C01_proofs C09_proofs RatLS_proofs Affine Affine_debiasers Driver Driver_rel ApplyLocation_units ApplyLocation_param IsimipStep5 IsimipStep5_proofs SDM SDM_units.
 Import ListNotations.
 Open Scope Q_scope.
 
@@ -183,3 +183,32 @@ Theorem C04_isimip_step5_additive : forall em im a b lb ub oh oh' ch ch' cf cf',
   Affine.ARL a b (step5 TAdditive em im lb ub oh ch cf) (step5 TAdditive em im lb ub oh' ch' cf').
 Proof. exact step5_additive_unit_change. Qed.
 Print Assumptions C04_isimip_step5_additive.
+
+(** ScaledDistributionMapping (absolute; hand model Model/SDM.v, correspondence K15): a change of units of the three
+    series carries over to the output, for any distribution whose fit on the detrended samples follows a rescaling
+    (cdf, ppf and the scale parameter read as fit[1]); satisfiable by the rational family *)
+Theorem C04_sdm_absolute_unit_change : forall (P : Type) (D : dist P) (scale_of : P -> Q) a b, 0 < a -> forall good,
+  fit_unit_change D a 0 good ->
+  (forall l l', good l -> Affine.ARL a 0 l l' -> scale_of (fit D l') == a * scale_of (fit D l) /\ ~ scale_of (fit D l) == 0) ->
+  forall obs obs' hist hist' fut fut', Affine.ARL a b obs obs' -> Affine.ARL a b hist hist' -> Affine.ARL a b fut fut' ->
+  obs <> [] -> hist <> [] -> fut <> [] -> good (detrend_const obs) -> good (detrend_const hist) -> good (detrend_const fut) ->
+  Affine.ARL a b (sdm_absolute D scale_of obs hist fut) (sdm_absolute D scale_of obs' hist' fut').
+Proof. intros P D scale_of a b Ha good H1 H2. exact (sdm_absolute_unit_change D scale_of a b Ha good H1 H2). Qed.
+Print Assumptions C04_sdm_absolute_unit_change.
+
+Theorem C04_sdm_hypotheses_satisfiable : forall a, 0 < a ->
+  fit_unit_change ratls a 0 ratls_good /\
+  (forall l l', ratls_good l -> Affine.ARL a 0 l l' -> snd (fit ratls l') == a * snd (fit ratls l) /\ ~ snd (fit ratls l) == 0).
+Proof. intros a Ha. split; [exact (ratls_fit_unit_change a 0 Ha)|exact (ratls_scale_unit_change a Ha)]. Qed.
+Print Assumptions C04_sdm_hypotheses_satisfiable.
+
+(** QuantileDeltaMapping (absolute, either ECDF method, fits from the window's obs / cm_hist, year window off) through
+    apply_location *)
+Theorem C04_qdm_apply_location : forall (P : Type) (D : dist P) a b, 0 < a -> forall good, fit_unit_change D a b good ->
+  forall em tq cth, em = step_function \/ em = linear_interpolation ->
+  forall L S dobs dhist dfut obs hist fut obs' hist' fut',
+  Driver_rel.windows_ok good good good L S dfut dobs dhist dfut obs hist fut -> Affine.ARL a b obs obs' -> Affine.ARL a b hist hist' -> Affine.ARL a b fut fut' ->
+  ApplyLocation_units.same_in_other_unit a b (Driver.driver_rw Q L S dobs dhist dfut obs hist fut (W_qdm_fit D em tq cth))
+                                             (Driver.driver_rw Q L S dobs dhist dfut obs' hist' fut' (W_qdm_fit D em tq cth)).
+Proof. intros P D a b Ha good Hf em tq cth Hem. exact (qdm_apply_location_unit_change D a b Ha good Hf em tq cth Hem). Qed.
+Print Assumptions C04_qdm_apply_location.
